@@ -403,7 +403,10 @@ def _site(text, h):
 
     left = left2 = right = None
     stack = []
+    npos = lpos = rpos = 0  # ordinal of a token in its logical line (1 = the leading word)
     for t in toks:
+        if t.type == T.NEWLINE:
+            npos = 0
         if t.type in (T.ENCODING, T.INDENT, T.DEDENT, T.FSTRING_MIDDLE, T.NEWLINE, T.NL):
             continue
         s, e = off(t.start), off(t.end)
@@ -429,10 +432,12 @@ def _site(text, h):
             if right is None:
                 right = t
             continue
+        if t.type != T.COMMENT:
+            npos += 1
         if e <= i1:
-            left2, left = left, t
+            left2, left, lpos = left, t, npos
         elif right is None and s >= i2:
-            right = t
+            right, rpos = t, npos
     L, R = _tokclass(left), _tokclass(right)
     if L == "=" and _tokclass(left2) == "ioredir":
         L = "ioredir="  # `a>=b` is lexed as the redirect token `a>` followed by `=`
@@ -463,7 +468,10 @@ def _site(text, h):
         if x in (",", ";", ":"):
             return "@" + x + brk
     if "=" in (L, R):
-        return "@=" + brk
+        # `NAME=...` at the head of a statement (assignment look-alike) is governed by another
+        # rule than a `k=v` word further along a command line
+        eqpos = lpos if L == "=" else rpos
+        return "@=" + (brk or ("/arg" if eqpos > 2 else ""))
     if "cmpaug" in (L, R):
         return "@cmpaug" + brk
     if L == "open":
@@ -585,6 +593,44 @@ def _repair_bang_late(text):
     return _BANG_LATE.sub(r"\1", text)
 
 
+_INFIX2 = re.compile(r"(?m)^([ \t]*[A-Za-z_]\w*[ \t]+)(?:and|or|is|in|not)(?=[ \t])")
+
+
+def _repair_infix2(text):
+    """a command line whose SECOND word is and/or/is/in/not: that word replaced by a plain one"""
+    return _INFIX2.sub(r"\1zz", text)
+
+
+_CONT1 = re.compile(r"(?m)^([ \t]*[A-Za-z_]\w*(?:[ \t]+-)?)([ \t]*)\\\r?\n([ \t]*)")
+_ASYNC_CONT = re.compile(r"\b(async|await)[ \t]*\\\r?\n[ \t]*")
+
+
+def _repair_cont1(text):
+    """a backslash-newline directly behind the leading word of a line (or behind the first dash of
+    its first flag) joined: into one blank, or into nothing when it was glued on both sides"""
+    return _CONT1.sub(lambda m: m.group(1) + (" " if m.group(2) or m.group(3) else ""), text)
+
+
+def _repair_async_cont(text):
+    """a backslash-newline directly behind `async` / `await` joined into one blank"""
+    return _ASYNC_CONT.sub(r"\1 ", text)
+
+
+_LINESEP = re.compile("[\x0b\x0c\x1c\x1d\x1e\x85\u2028\u2029]")
+
+
+def _repair_linesep(text):
+    """characters that str.splitlines() (but not the tokenizer) takes for line ends removed"""
+    return _LINESEP.sub("", text)
+
+
+def _formatter_ignores(text, fixed, repair):
+    """guard: the FORMATTER treats the two texts alike (its output for the repaired text is the
+    repaired output), i.e. whatever differs is due to how xonsh's parser reads the input"""
+    a, b = _fmt(text), _fmt(fixed)
+    return a[0] == "ok" and b[0] == "ok" and repair(a[1]) == b[1]
+
+
 _LEAD_FF = re.compile(r"(?m)^([ \t]*)\x0c+")
 
 
@@ -630,9 +676,14 @@ FEATURES = [
     ("blanks-before-subproc-macro-bang", _repair_bang_gap),
     ("subproc-macro-bang-behind-later-word", _repair_bang_late),
     ("form-feed-in-leading-whitespace", _repair_lead_ff),
+    ("subproc-second-word-is-infix-keyword", _repair_infix2),
+    ("continuation-directly-after-command-word", _repair_cont1),
+    ("continuation-directly-after-async", _repair_async_cont),
+    ("linesep-char-in-source-confuses-parser", _repair_linesep),
 ]
+_FEATURE_GUARD = {"linesep-char-in-source-confuses-parser": _formatter_ignores}
 # features that only explain a tree difference (never a non-idempotence / comment loss)
-_TREE_ONLY = ("form-feed-in-leading-whitespace", "blanks-between-name-and-macro-paren", "blanks-in-fstring-debug-field", "blanks-before-subproc-macro-bang", "subproc-macro-bang-behind-later-word")
+_TREE_ONLY = ("linesep-char-in-source-confuses-parser", "continuation-directly-after-command-word", "continuation-directly-after-async", "subproc-second-word-is-infix-keyword", "form-feed-in-leading-whitespace", "blanks-between-name-and-macro-paren", "blanks-in-fstring-debug-field", "blanks-before-subproc-macro-bang", "subproc-macro-bang-behind-later-word")
 
 
 def _by_feature(text, passes, tree=False):
@@ -645,6 +696,9 @@ def _by_feature(text, passes, tree=False):
             continue
         try:
             fixed = repair(text)
+            guard = _FEATURE_GUARD.get(name)
+            if fixed != text and guard is not None and not guard(text, fixed, repair):
+                continue
             cur = repair(cur)
         except Exception:  # noqa: BLE001
             continue
